@@ -128,3 +128,99 @@ pub fn expected_ctor(h: &Header) -> Option<Result<(), String>> {
         Kind::Sampled => Some(Ok(())),
     }
 }
+
+/// category of a constructor error, from its Debug text (CacheError's derived names; the LFU error
+/// types are not nameable from outside the crate, so their messages are classified by keyword —
+/// an unrecognised message is not judged)
+pub fn error_category(msg: &str) -> Option<&'static str> {
+    let m = msg.to_ascii_lowercase();
+    if m.starts_with("invalidsize") {
+        Some("size")
+    } else if m.starts_with("invalidrecentratio") {
+        Some("recent_ratio")
+    } else if m.starts_with("invalidghostratio") {
+        Some("ghost_ratio")
+    } else if m.contains("false positive") {
+        Some("fp")
+    } else if m.contains("sample") {
+        Some("samples")
+    } else if m.contains("window") {
+        Some("window")
+    } else if m.contains("probationary") {
+        Some("probationary")
+    } else if m.contains("protected") {
+        Some("protected")
+    } else if m.contains("width") {
+        Some("width")
+    } else {
+        None
+    }
+}
+
+/// the categories of invalid arguments present in this constructor call (C05: "rejected with the
+/// matching error")
+pub fn invalid_categories(h: &Header) -> Vec<&'static str> {
+    let bad_ratio = |r: f64| !(0.0..=1.0).contains(&r);
+    let bad_fp = |r: f64| !(r > 0.0 && r < 1.0);
+    let mut v = Vec::new();
+    match h.kind {
+        Kind::Lru | Kind::Arc => {
+            if h.sizes[0] == 0 {
+                v.push("size");
+            }
+        }
+        Kind::Slru => {
+            if h.sizes[0] == 0 || h.sizes[1] == 0 {
+                v.push("size");
+            }
+        }
+        Kind::TwoQ => {
+            if h.sizes[0] == 0 {
+                v.push("size");
+            }
+            if bad_ratio(h.ratios[0]) {
+                v.push("recent_ratio");
+            }
+            if bad_ratio(h.ratios[1]) {
+                v.push("ghost_ratio");
+            }
+            if !bad_ratio(h.ratios[1]) && ((h.sizes[0] as f64) * h.ratios[1]).floor() < 1.0 {
+                v.push("size"); // ghost bound 0
+            }
+        }
+        Kind::Wtlfu => {
+            let derived = h.random_state && h.ctor != 0;
+            if h.sizes[0] == 0 {
+                v.push("window");
+            }
+            if h.sizes[1] == 0 {
+                v.push("probationary");
+            }
+            if h.sizes[2] == 0 {
+                v.push("protected");
+            }
+            if derived && !v.is_empty() {
+                v = vec!["window", "probationary", "protected"];
+            }
+            if h.samples == 0 {
+                v.push("samples");
+            }
+            if !h.random_state && bad_fp(h.ratios.first().copied().unwrap_or(0.01)) {
+                v.push("fp");
+            }
+        }
+        Kind::Tlfu => {
+            if h.sizes[0] == 0 {
+                v.push("width");
+            }
+            if h.samples == 0 {
+                v.push("samples");
+            }
+            if bad_fp(h.ratios.first().copied().unwrap_or(0.01)) {
+                v.push("fp");
+            }
+        }
+        Kind::Sampled => {}
+    }
+    v
+}
